@@ -532,9 +532,16 @@ public:
     return slot ? slot : _create_stack_slot(work_reg);
   }
 
+  //! Makes sure that `work_reg` has a stack slot (its home location) - fails if the slot cannot be allocated.
+  [[nodiscard]]
+  inline Error ensure_stack_slot(RAWorkReg* work_reg) noexcept {
+    return get_or_create_stack_slot(work_reg) ? Error::kOk : make_error(Error::kOutOfMemory);
+  }
+
+  //! Returns a memory operand that refers to the home location of `work_reg` - `ensure_stack_slot()` must have succeeded.
   [[nodiscard]]
   inline BaseMem work_reg_as_mem(RAWorkReg* work_reg) noexcept {
-    (void)get_or_create_stack_slot(work_reg);
+    ASMJIT_ASSERT(work_reg->stack_slot() != nullptr);
     return BaseMem(OperandSignature::from_op_type(OperandType::kMem) |
                    OperandSignature::from_mem_base_type(_sp.reg_type()) |
                    OperandSignature::from_bits(OperandSignature::kMemRegHomeFlag),
